@@ -39,12 +39,15 @@ pub fn spec() -> CheckSpec {
     CheckSpec {
         id: "C19",
         level: "exploration",
-        rule: "proptest: block-tree plans (forks incl. shorter-but-heavier branches across the epoch-0/1 difficulty change, returns to an already verified branch, uncles, proposals/commits spending varied locks, blocks with a flipped chain-root bit or no extension) built by the reference model with the MODEL's MMR root in every block, delivered in creation order to a real node; the BlockFilter service is started at a generated point and the deliveries continue in generated bursts while it lags. After every delivery: tip = model tip, chain_root_mmr(k).get_root() = model root over header digests 0..=k (k = tip and a sampled k) = root committed by block k+1, gen_proof for a sampled ancestor set verifies with the right leaves and fails with a wrong leaf / against the abandoned branch's root; after every burst (once the builder caught up) every main-chain block's stored GCS filter matches every output and spent-input script hash and filter hashes chain from genesis. A case = (spec variant, plan, filter start, bursts, proof selectors); non-trivial = the history contains a reorg to a shorter chain followed by growth past the old length, or filters were built across a reorg (the service was running / lagging while blocks were detached); distinct by hash of the case.",
+        rule: "proptest: block-tree plans (forks incl. shorter-but-heavier branches across the epoch-0/1 difficulty change, returns to an already verified branch, uncles, proposals/commits spending varied locks, blocks with a flipped chain-root bit or no extension) built by the reference model with the MODEL's MMR root in every block, delivered in creation order to a real node; the BlockFilter service is started at a generated point and the deliveries continue in generated bursts while it lags. After every delivery: tip = model tip, chain_root_mmr(k).get_root() = model root over header digests 0..=k (k = tip and a sampled k) = root committed by block k+1, gen_proof for a sampled ancestor set verifies with the right leaves and fails with a wrong leaf / against the abandoned branch's root; after every burst (once the builder caught up) every main-chain block's stored GCS filter matches every output and spent-input script hash and filter hashes chain from genesis. Sub-check light-client: the same histories; after every delivery (and additionally right after every delivery that detached a block) generated requests are delivered to the real LightClientProtocol through CKBProtocolHandler::received with a recording protocol context: GetLastState, GetLastStateProof (last_hash = tip / older main-chain block / detached / stored side / unknown / genesis; start number at 0, inside, at the fork point +-3, beyond last, u64::MAX; start hash right / the abandoned branch's block at that height / zero / another block; last_n 0 / 1 / small / 100 / 500 / 501 / 2^62 / u64::MAX; boundary at a block's total difficulty +-1 / 0 / max / above last; difficulties sorted, unsorted, duplicated, at the boundary, at the start, 1001 of them), GetBlocksProof and GetTransactionsProof (hashes on the main chain below or anywhere relative to last, on the abandoned branch, stored side blocks, unknown, duplicated, last itself, 1001 of them; cellbases and transactions committed on both branches), raw bytes and Send* items. Every reply is judged against the model: the named last header is the requested main-chain block (the tip with an empty proof when last_hash is off the main chain), the proved headers are exactly the blocks of a linear-scan restatement of the documented sampling rule / exactly the requested main-chain items with the rest reported missing, every VerifiableHeader carries the model root over the main chain's digests below it (= what the block commits), the MMR proof verifies with the harness's own verifier ((height, leaf index) coordinates, model merge) against the model root below last and not against the rival branch's root, every filtered block's CBMT proof verifies with the harness's own CBMT code against the header's transactions root and names exactly the requested transactions; no request makes the handler panic. A case = (spec variant, plan, filter start, bursts, proof selectors) or (spec variant, plan, request rounds); non-trivial = the history contains a reorg to a shorter chain followed by growth past the old length, or filters were built across a reorg (the service was running / lagging while blocks were detached), or (light-client) a proof request served after a reorg that detached at least one block with the requested last_hash, a requested block or a requested transaction on the abandoned branch, or a proved set that crosses the fork point; distinct by hash of the case.",
         assumptions: &[
             "blocks are delivered synchronously in creation order (parents first); delivery orders are C01's subject",
             "the filter builder is woken by re-sending the new-block notification when it lags (a lost wake-up only delays it until the next block); a builder that does not catch up within the time-out is inconclusive, not a violation",
             "the GCS codec (golomb-coded-set crate), the MMR proof verifier (ckb-merkle-mountain-range crate) and blake2b are trusted; which nodes/elements the node stores, serves and commits is what is checked",
-            "the light-client protocol handlers are not driven; the Snapshot/ChainStore calls they wrap are",
+            "light-client: requests are delivered one at a time from the check's thread between block deliveries; the handler takes one snapshot to choose the blocks and a second one in reply_proof to build the proof, a reorg committing between the two is not explored (no deterministic way to place it without a hook)",
+            "light-client: a well-formed request naming main-chain blocks / transactions at or above last_hash (which the chain root of last cannot prove) may stay unanswered; a request the handler documents as invalid may be refused with or without a ban; whatever is answered must be sound",
+            "light-client: the sampling rule is the one of the handler's doc comments and RFC 0044 restated as a linear scan (first block whose total difficulty reaches each difficulty below the boundary block, then every block from the boundary block / the last n blocks, preceded by the last n blocks before start when start_hash is not the main chain's block at start_number)",
+            "the block-filter protocol handlers of ckb-sync (GetBlockFilters / Hashes / CheckPoints) are not driven; the store records they serve are checked by the history families",
         ],
         workers: |_| 8,
         watchdog_s: |t| t.pick(1500, 7200),
@@ -782,9 +785,18 @@ fn run(ctx: &Ctx) {
     if want("shorter-heavier") {
         ctx.run_prop("shorter-heavier", cases, directed_strategy(), prop);
     }
+    let cases = ctx.cases(600, 8000);
+    if want("light-client") {
+        ctx.run_prop("light-client", cases, crate::c19_lc::case_strategy(max_blocks), crate::c19_lc::prop);
+    }
 }
 
-fn replay(ctx: &Ctx, _sub: &str, v: &Value) -> Verdict {
+fn replay(ctx: &Ctx, sub: &str, v: &Value) -> Verdict {
+    if sub == "light-client" {
+        let c: crate::c19_lc::Case = from_case(v)?;
+        let mut st = ctx.stats.borrow_mut();
+        return crate::c19_lc::prop(&c, &mut st);
+    }
     let c: Case = from_case(v)?;
     let mut st = ctx.stats.borrow_mut();
     prop(&c, &mut st)
